@@ -24,6 +24,7 @@ EXPLANATION = (
     " (S7) rows are never removed because their text equals another row's (shared with C05-P1, duplicates)."
     ' (S8) can_parse applies no test on the characters of the text; (S9) the command line drops no rows after a look at their text (shared with C05-P11).'
     ' (S10) the composition is computed from the whole side string (shared with C07-E2). (S11) the carbon count tests atoms by element (shared with C07-E13).'
+    ' (S12) completions come from the solver on the composition vector only (shared with C08-D8).'
 )
 ASSUMPTIONS = [
     "PostProcess.label_reactions is a single named exemption: its label only routes a row to a curation step whose edits depend on RDKit's count of isolated radical atoms and on whole-component filters; no failing pair of spellings could be produced",
